@@ -17,7 +17,7 @@ import sys
 
 HERE = os.path.dirname(os.path.dirname(os.path.abspath(__file__)))
 
-TEMPLATE = """You are helping to evaluate a verification effort by acting as a realistic source of regressions. You work ONLY inside your own scratch git worktree `{wt}` (a checkout of the Python project vermouth / martinize2: a library and CLI converting atomistic molecular structures into coarse-grained topologies). Do not read or write anything under /verif or /repo, do not commit, do not touch other /tmp/seed* directories.
+TEMPLATE = """You are helping to evaluate a verification effort by acting as a realistic source of regressions. You work ONLY inside your own scratch git worktree `{wt}` (a checkout of the Python project vermouth / martinize2: a library and CLI converting atomistic molecular structures into coarse-grained topologies). Do not read or write anything under /verif or /repo, do not commit, do not touch other /tmp/seed* directories. NEVER use `git stash` (the stash is shared between all worktrees of the repository and other people work in sibling worktrees at the same time): to test on a clean tree use `git diff > /tmp/<your-dir>/x.diff; git checkout -- .; ...; git apply x.diff`.
 
 The project is importable from your worktree with `PYTHONPATH={wt} /venv/bin/python ...` (check once that `import vermouth; print(vermouth.__file__)` points into `{wt}`; the system has an editable install pointing elsewhere, PYTHONPATH takes precedence). Every shell command prints a harmless conda WARNING line first. No network.
 
